@@ -6,6 +6,8 @@ from . import common
 def run(ctx):
     # (1) the rule and its consequence (window bound) on the model, exhaustively for short histories
     r = ctx.tlc("MCFlood.tla", "MCFlood_window.cfg", what="all histories of <= 5 sends, lengths {0,60,510}, gaps {0, 1 tick, 1 s, 10 s, 60 s}: NeverNegative, Bounded, WindowBound, HeldIffOver", timeout=1800)
+    # (1b) the lemma behind the window bound for histories of ANY length: TLAPS proof of an inductive invariant
+    proof = tlaps(ctx)
     # (2) closure of the penalty values; every edge replayed on the real rateLimit
     out_dir = ctx.subdir("flood-edges")
     rc, out, tl = ctx.pipe_tlc_to_drv("MCFlood.tla", "MCFlood_edges.cfg", ["flood-edges", "-out", out_dir], workers=1,
@@ -41,8 +43,26 @@ def run(ctx):
     cov = {"evaluations": s["edges"] + t["lines"], "distinct_nontrivial": s["held_edges"],
            "rule": "one evaluation = one edge (penalty, idle gap, line length) of TLC's state graph of Flood.tla replayed on the real rateLimit (returned delay and new penalty compared) or "
                    "one line of a timed session; non-trivial = edges on which the line is held back",
-           "exhaustive": True, "edges": s["edges"], "held_edges": s["held_edges"], "timed_sessions": t["sessions"], "timed_lines": t["lines"], "timed_held_lines": t["held_lines"]}
+           "exhaustive": True, "edges": s["edges"], "held_edges": s["held_edges"], "timed_sessions": t["sessions"], "timed_lines": t["lines"], "timed_held_lines": t["held_lines"],
+           "tlaps": proof}
     return common.finish(ctx, "model_checking", cov)
+
+
+def tlaps(ctx):
+    """FloodProof.tla: Spec => [](NeverNegative /\\ Bounded) for unbounded histories.  A proof that does not go through
+    is a problem of the specification (inconclusive), never a verdict about the code."""
+    import subprocess, re, time
+    d = ctx.spec_dir("tlaps")
+    t0 = time.time()
+    try:
+        p = subprocess.run(["tlapm", "--threads", "8", "FloodProof.tla"], cwd=d, stdout=subprocess.PIPE, stderr=subprocess.STDOUT, timeout=600, universal_newlines=True)
+    except (subprocess.TimeoutExpired, OSError) as e:
+        raise common.Inconclusive("tlapm did not finish on FloodProof.tla: %s" % e)
+    m = re.search(r"All (\d+) obligations? proved", p.stdout)
+    if not m:
+        raise common.Inconclusive("the TLAPS proof of Flood's penalty bounds does not go through:\n" + p.stdout[-1500:])
+    return {"module": "FloodProof.tla", "theorem": "Spec => [](NeverNegative /\\ Bounded), any number of sends, lengths 0..510, any gaps", "obligations_proved": int(m.group(1)),
+            "wall_s": round(time.time() - t0, 1)}
 
 
 def replay(ctx, path):
